@@ -7,6 +7,22 @@ SERVICES_MIN = {"NICK": 4, "JOIN": 1, "PART": 1, "MODE": 1, "KILL": 2, "KICK": 2
                 "SVSNICK": 2, "SVSJOIN": 2, "SVSPART": 2, "SVSMODE": 2, "SVSHOLD": 1, "QUIT": 0, "PING": 0}
 
 
+# MinParams of the services commands in the dispatch table of the pinned tree (also pinned by the theorem
+# C06_services_minparams).  Where the table of the tree under test admits FEWER parameters than that, the server
+# now accepts lines it used to refuse with 461: those lines count as conforming for the failing-input search.
+EXPECTED_SERVER_MIN = {"INVITE": 2, "JOIN": 0, "KICK": 2, "KILL": 1, "MODE": 0, "NICK": 0, "NOTICE": 0, "PART": 0, "PING": 0, "PRIVMSG": 0, "QUIT": 0,
+                       "SVSHOLD": 1, "SVSJOIN": 2, "SVSMODE": 2, "SVSNICK": 2, "SVSPART": 2, "TOPIC": 3}
+TABLE = {}
+
+
+def needed(cmd):
+    need = SERVICES_MIN.get(cmd, 0)
+    tbl, exp = TABLE.get(cmd), EXPECTED_SERVER_MIN.get(cmd)
+    if tbl is not None and exp is not None and tbl < exp:
+        need = min(need, tbl)
+    return need
+
+
 def conforming(text):
     t = text.strip("\r\n")
     if not t.startswith(":"):
@@ -25,7 +41,7 @@ def conforming(text):
         n = len(rest.split(" ")) if rest != "" or len(parts) > 2 else 0
     if cmd == "NICK" and n == 1:
         return True
-    return n >= SERVICES_MIN.get(cmd, 0)
+    return n >= needed(cmd)
 
 
 def oracle(h, g, l):
@@ -47,8 +63,14 @@ def oracle(h, g, l):
 
 
 def check(run):
+    import vlib
+    ok, facts, _ = vlib.ensure_extract()
+    for c in (facts or {}).get("commands", []):
+        if c["Name"].startswith("server_"):
+            TABLE[c["Name"][7:]] = c["MinParams"]
     n, L = (300, 120) if run.tier == "quick" else (8000, 300)
-    return irc_check.run_property(run, oracle, n, L,
+    lowered = sorted(c for c, v in TABLE.items() if c in EXPECTED_SERVER_MIN and v < EXPECTED_SERVER_MIN[c])
+    return irc_check.run_property(run, oracle, n, L, gen_kwargs=({"focus": lowered[0]} if lowered else None),
         rule="random histories; every entry is applied through the real FSM.applyRobustMessage under recover(); a panic on an entry of a client session, or on a protocol-conforming line of a services link, is a violation; non-trivial = history > 5 ops; distinct by op list")
 
 
